@@ -98,6 +98,75 @@ def scan_package(root):
     return sorted(set(stores)), sorted(set(memos)), sorted(set(mutables)), sorted(set(captured))
 
 
+MUTATORS = {'append', 'insert', 'extend', 'pop', 'remove', 'clear', 'update', 'sort', 'reverse', 'add', 'discard', 'setdefault',
+            'popitem', '__setitem__', '__delitem__', 'appendleft', 'popleft'}
+
+
+def scan_shared_containers(root):
+    """module-level (or class-level) names bound to a mutable container (list / dict / set display or constructor call) that a function
+    mutates in place — directly or through a local alias `v = NAME` — are process-wide state just like a store to a global"""
+    found = []
+    pkg = os.path.join(root, 'pytrs')
+    for dirpath, _, files in os.walk(pkg):
+        if 'interface_tools' in dirpath:
+            continue
+        for fn in files:
+            if not fn.endswith('.py'):
+                continue
+            path = os.path.join(dirpath, fn)
+            rel = os.path.relpath(path, root)
+            tree = ast.parse(open(path, encoding='utf-8').read())
+
+            def is_mutable(v):
+                return (isinstance(v, (ast.List, ast.Dict, ast.Set, ast.ListComp, ast.DictComp, ast.SetComp))
+                        or (isinstance(v, ast.Call) and ast.unparse(v.func) in ('list', 'dict', 'set', 'collections.deque', 'deque',
+                                                                                 'collections.defaultdict', 'defaultdict')))
+            shared = set()
+            for node in tree.body:
+                holders = [node] + ([n for n in node.body] if isinstance(node, ast.ClassDef) else [])
+                for n in holders:
+                    if isinstance(n, ast.Assign) and is_mutable(n.value):
+                        for t in n.targets:
+                            if isinstance(t, ast.Name):
+                                shared.add(t.id)
+                    elif isinstance(n, ast.AnnAssign) and n.value is not None and is_mutable(n.value) and isinstance(n.target, ast.Name):
+                        shared.add(n.target.id)
+            if not shared:
+                continue
+            for f in ast.walk(tree):
+                if not isinstance(f, (ast.FunctionDef, ast.AsyncFunctionDef)):
+                    continue
+                alias = {}
+                for n in ast.walk(f):
+                    if isinstance(n, ast.Assign) and len(n.targets) == 1 and isinstance(n.targets[0], ast.Name):
+                        v = n.value
+                        src = v.id if isinstance(v, ast.Name) else (v.attr if isinstance(v, ast.Attribute) else None)
+                        if src in shared:
+                            alias[n.targets[0].id] = src
+
+                def shared_of(e):
+                    while isinstance(e, ast.Subscript):
+                        e = e.value
+                    nm = e.id if isinstance(e, ast.Name) else (e.attr if isinstance(e, ast.Attribute) and isinstance(e.value, ast.Name)
+                                                               and e.value.id in ('cls', 'self') else None)
+                    if nm in shared and not (isinstance(e, ast.Name) and nm in {a.arg for a in f.args.args + f.args.kwonlyargs}):
+                        return nm
+                    return alias.get(nm) if isinstance(e, ast.Name) else None
+                for n in ast.walk(f):
+                    if isinstance(n, ast.Call) and isinstance(n.func, ast.Attribute) and n.func.attr in MUTATORS:
+                        nm = shared_of(n.func.value)
+                        if nm:
+                            found.append((rel, f.name, nm, n.func.attr))
+                    elif isinstance(n, (ast.Assign, ast.AugAssign, ast.Delete)):
+                        tg = n.targets if isinstance(n, (ast.Assign, ast.Delete)) else [n.target]
+                        for t in tg:
+                            if isinstance(t, ast.Subscript) or isinstance(n, ast.AugAssign):
+                                nm = shared_of(t)
+                                if nm:
+                                    found.append((rel, f.name, nm, 'item store'))
+    return sorted(set(found))
+
+
 def scan_result():
     import pytrs
     root = os.path.dirname(os.path.dirname(os.path.abspath(pytrs.__file__)))
@@ -109,7 +178,9 @@ def scan_ok():
     stores, memos, mutables, captured = scan_result()
     extra_stores = [s for s in stores if s not in ALLOWED_GLOBAL_STORES]
     extra_captured = [c for c in captured if c not in ALLOWED_DEFINITION_TIME_DEFAULTS]
-    return (extra_stores, memos, mutables, extra_captured)
+    import pytrs
+    root = os.path.dirname(os.path.dirname(os.path.abspath(pytrs.__file__)))
+    return (extra_stores, memos, mutables, extra_captured, scan_shared_containers(root))
 
 
 scan_ok.__pyvc_native__ = True
@@ -120,13 +191,14 @@ def _scan_unit():
                 ensures=[('no_store_to_process_wide_state_outside_the_allow_list', lambda result: len(result[0]) == 0),
                          ('no_memoising_decorator', lambda result: len(result[1]) == 0),
                          ('no_mutable_default_argument', lambda result: len(result[2]) == 0),
-                         ('no_default_captured_from_MasterConfig_at_definition_time', lambda result: len(result[3]) == 0)],
+                         ('no_default_captured_from_MasterConfig_at_definition_time', lambda result: len(result[3]) == 0),
+                         ('no_in_place_mutation_of_a_module_or_class_level_container', lambda result: len(result[4]) == 0)],
                 replay=('props.c15:replay_scan', {}))
 
 
 def replay_scan(model):
     r = scan_ok()
-    return {'confirmed': any(len(x) > 0 for x in r), 'detail': f"stores={r[0]} memo={r[1]} mutable_defaults={r[2]} captured={r[3]}"}
+    return {'confirmed': any(len(x) > 0 for x in r), 'detail': f"stores={r[0]} memo={r[1]} mutable_defaults={r[2]} captured={r[3]} shared_containers_mutated={r[4]}"}
 
 
 # ---- the TRS cache --------------------------------------------------------------------------------------------------------------
@@ -254,6 +326,8 @@ def probe():
     out = {}
     d = PLSSDesc('T154-R97 Sec 14: NE/4, Lots 1 - 2, Sec 15: N/2SW/4; Township 7 North, Range 2 West Sec 1: ALL', config='parse_qq')
     out['desc'] = [(t.trs, t.desc, t.lots, t.qqs, t.w_flags, t.e_flags, t.twp, t.rge, t.sec_num) for t in d.tracts] + [d.w_flags, d.e_flags, d.pp_desc]
+    o = PLSSDesc('Township lS4 North, Range 97 West, Section 14: NE/4; T1o4N-R9|W Sec 1: ALL')     # OCR look-alikes, ocr_scrub off
+    out['ocr_off'] = [(t.trs, t.desc) for t in o.tracts] + [o.e_flags, o.pp_desc]
     t = Tract('N/2 of Lot 4, NE', trs='154n97w14', parse_qq=True, config='clean_qq')
     out['tract'] = [t.trs, t.lots, t.qqs, t.twp_num, t.rge_ew]
     out['trs'] = [(x.trs, x.twp, x.twp_num, x.rge_ew, x.sec_num, x.is_error(), x.is_undef()) for x in
@@ -274,6 +348,7 @@ HISTORIES = {
     'returned lists mutated': "d = PLSSDesc('T154-R97 Sec 14: NE/4, Lots 1 - 2', config='parse_qq'); d.tracts[0].to_list('lots')[0].append('L99'); d.tracts.tracts_to_list('w_flags')[0][0].append('HACK'); pytrs.find_sec('Sec 1 - 3').append('99')",
     'objects created under other defaults': "MasterConfig.default_ns='s'; a = PLSSDesc('T154-R97 Sec 14: NE/4', wait_to_parse=True); b = Tract('NE/4', trs='154n97w14'); MasterConfig.default_ns='n'; a.parse(); b.parse()",
     'counter advanced': "[Tract('x') for _ in range(50)]",
+    'optional modes used before': "PLSSDesc('Township lS4 North, Range 97 West, Section 14: NE/4', config='ocr_scrub'); PLSSDesc('T154N-R97W Sec 14 NE/4, Sec 15: W/2', config='segment,sec_colon_required,sec_within,clean_qq,parse_qq,qq_depth.3'); Tract('Lot 1(40.0), NE', config='clean_qq,suppress_lot_divs,break_halves', parse_qq=True)",
 }
 
 
